@@ -5,11 +5,16 @@ Open Scope string_scope.
 
 (* ------------------------------------------------------------------ guards of the findings *)
 
-(** C13-F1 (pinned grpcv3.RequestContext only): the pipeline reads a capture that matching stored *)
-Definition g_F1_query (caps : list (string * string)) (q : query) : bool :=
+(** C13-F1 (pinned grpcv3.RequestContext only): the pipeline reads something that lookup or
+    ruleImpl.Execute WROTE into the view: a capture that matching stored, or — once the Envoy context
+    carries a RawPath at all (fixed_F4) — the RawPath that `allow_encoded_slashes: on` resets *)
+Definition is_on (s : slashes) : bool := match s with SOn => true | _ => false end.
+
+Definition g_F1_query (caps : list (string * string)) (s : slashes) (fixed_F4 : bool) (q : query) : bool :=
   match q with
   | QCapture n => existsb (String.eqb n) (map fst caps)
   | QCaptures => negb (is_nil caps)
+  | QRawPath | QUrl => fixed_F4 && is_on s
   | _ => false
   end.
 
@@ -437,11 +442,11 @@ Lemma nonempty_slash s : starts_with_slash s = true -> nonempty s = true.
 Proof. destruct s; [discriminate | reflexivity]. Qed.
 
 (** C13: rule lookup sees the same thing at all entry points *)
-Theorem same_lookup L :
-  wf_lreqb L = true -> lookup_of (build_http L) = lookup_of (build_envoy (mk_envoy L)).
+Theorem same_lookup fixed_F4 L :
+  wf_lreqb L = true -> lookup_of (build_http L) = lookup_of (build_envoy fixed_F4 (mk_envoy L)).
 Proof.
   intro W. rewrite build_http_wf by exact W. destruct (wf_parts L W) as (_ & _ & _ & Hs & _).
-  unfold lookup_of, build_envoy, mk_envoy. cbn. rewrite (nonempty_slash _ Hs). reflexivity.
+  unfold lookup_of, build_envoy, mk_envoy. destruct fixed_F4; cbn; rewrite (nonempty_slash _ Hs); reflexivity.
 Qed.
 
 (* ------------------------------------------------------------------ cookies: the two readers agree on plain Cookie lines *)
@@ -719,12 +724,15 @@ Section Agree.
   Definition http_mech (L : lreq) (s : slashes) (caps : list (string * string)) : rview :=
     {| rv_method := l_method L; rv_scheme := scheme_of L; rv_host := l_host L;
        rv_path := GoUrl.unescape_or_empty (l_rawpath L);
-       rv_rawpath := match s with SOn => "" | _ => l_rawpath L end;
+       rv_rawpath := if is_on s then "" else l_rawpath L;
        rv_query := l_query L; rv_caps := Some (unesc_caps s caps); rv_ips := [l_peer L] |}.
 
-  Definition envoy_mech (fixed_F1 : bool) (L : lreq) (s : slashes) (caps : list (string * string)) : rview :=
+  (** what the mechanisms see under Envoy: with the pinned context nothing that was written into the
+      view (captures, RawPath reset); with the pinned URL construction the escaped path in Path *)
+  Definition envoy_mech (fixed_F1 fixed_F4 : bool) (L : lreq) (s : slashes) (caps : list (string * string)) : rview :=
     {| rv_method := l_method L; rv_scheme := scheme_of L; rv_host := l_host L;
-       rv_path := l_rawpath L; rv_rawpath := "";
+       rv_path := if fixed_F4 then GoUrl.unescape_or_empty (l_rawpath L) else l_rawpath L;
+       rv_rawpath := if fixed_F4 then (if fixed_F1 && is_on s then "" else l_rawpath L) else "";
        rv_query := l_query L; rv_caps := if fixed_F1 then Some (unesc_caps s caps) else None; rv_ips := [l_peer L] |}.
 
   Lemma mech_view_http L rl caps :
@@ -733,27 +741,30 @@ Section Agree.
     if g_F4_decision (r_slashes rl) L then inl EArgument else inr (rl, http_mech L (r_slashes rl) caps).
   Proof.
     intros W F. unfold mech_view. rewrite F. rewrite build_http_wf by exact W.
-    unfold g_F4_decision, slash_switch, set_caps, unescape_caps, http_mech, unesc_caps.
+    unfold g_F4_decision, slash_switch, set_caps, unescape_caps, http_mech, unesc_caps, is_on.
     cbn [rv_method rv_scheme rv_host rv_path rv_rawpath rv_query rv_caps rv_ips option_map].
     destruct (r_slashes rl); try reflexivity.
     destruct (GoUrl.contains "%2F" (l_rawpath L)); reflexivity.
   Qed.
 
-  Lemma mech_view_envoy fixed L rl caps :
-    find (lookup_of (build_envoy (mk_envoy L))) = Some (rl, caps) ->
-    mech_view find fixed (build_envoy (mk_envoy L)) = inr (rl, envoy_mech fixed L (r_slashes rl) caps).
+  Lemma mech_view_envoy fixed1 fixed4 L rl caps :
+    find (lookup_of (build_envoy fixed4 (mk_envoy L))) = Some (rl, caps) ->
+    mech_view find fixed1 (build_envoy fixed4 (mk_envoy L)) =
+    if fixed4 && g_F4_decision (r_slashes rl) L then inl EArgument
+    else inr (rl, envoy_mech fixed1 fixed4 L (r_slashes rl) caps).
   Proof.
     intros F. unfold mech_view. rewrite F.
-    unfold slash_switch, set_caps, unescape_caps, envoy_mech, unesc_caps, build_envoy, mk_envoy.
-    cbn [rv_method rv_scheme rv_host rv_path rv_rawpath rv_query rv_caps rv_ips option_map
-         e_method e_scheme e_host e_path e_query e_xff].
-    destruct fixed; destruct (r_slashes rl); reflexivity.
+    unfold g_F4_decision, slash_switch, set_caps, unescape_caps, envoy_mech, unesc_caps, build_envoy, mk_envoy, is_on.
+    destruct fixed1, fixed4; destruct (r_slashes rl);
+      cbn [rv_method rv_scheme rv_host rv_path rv_rawpath rv_query rv_caps rv_ips option_map
+           e_method e_scheme e_host e_path e_query e_xff andb]; try reflexivity;
+      destruct (GoUrl.contains "%2F" (l_rawpath L)); reflexivity.
   Qed.
 
   (** all the guards of one read of the view *)
-  Definition guard_query (fixed_F1 : bool) (s : slashes) (caps : list (string * string)) (L : lreq) (q : query) : bool :=
-    (negb fixed_F1 && g_F1_query caps q) || g_F2_query L q || g_F4_query s L q || g_F5_query L q ||
-    g_F6_query q || g_F7_query decode L q.
+  Definition guard_query (fixed_F1 fixed_F4 : bool) (s : slashes) (caps : list (string * string)) (L : lreq) (q : query) : bool :=
+    (negb fixed_F1 && g_F1_query caps s fixed_F4 q) || g_F2_query L q || (negb fixed_F4 && g_F4_query s L q) ||
+    g_F5_query L q || g_F6_query q || g_F7_query decode L q.
 
   Lemma assoc_opt_unesc_none s n caps :
     existsb (String.eqb n) (map fst caps) = false -> assoc_opt n (unesc_caps s caps) = None.
@@ -781,10 +792,10 @@ Section Agree.
 
   (** C13, the view: every read of the view that no guard covers gives the same answer at the
       HTTP entry points and at the Envoy entry point *)
-  Theorem answer_agree fixed L s caps q :
-    wf_lreqb L = true -> guard_query fixed s caps L q = false ->
+  Theorem answer_agree fixed1 fixed4 L s caps q :
+    wf_lreqb L = true -> guard_query fixed1 fixed4 s caps L q = false ->
     answer (acc_http decode L) (http_mech L s caps) q =
-    answer (acc_envoy decode (mk_envoy L)) (envoy_mech fixed L s caps) q.
+    answer (acc_envoy decode (mk_envoy L)) (envoy_mech fixed1 fixed4 L s caps) q.
   Proof.
     intros W G. unfold guard_query in G.
     repeat (apply orb_false_iff in G as [G ?]).
@@ -793,23 +804,29 @@ Section Agree.
     destruct q; cbn [answer http_mech envoy_mech rv_method rv_scheme rv_host rv_path rv_rawpath rv_query rv_caps rv_ips];
       try reflexivity.
     - (* QPath *)
-      cbn [g_F4_query] in G4. apply negb_false_iff, String.eqb_eq in G4. rewrite G4. reflexivity.
+      destruct fixed4; [reflexivity|]. cbn [negb andb g_F4_query] in G4.
+      apply negb_false_iff, String.eqb_eq in G4. rewrite G4. reflexivity.
     - (* QRawPath *)
-      cbn [g_F4_query] in G4. destruct s; try reflexivity;
-        rewrite (nonempty_slash _ Hs) in G4; discriminate.
+      destruct fixed4.
+      + destruct fixed1; [reflexivity|]. cbn [negb andb g_F1_query] in G1. rewrite G1. reflexivity.
+      + cbn [negb andb g_F4_query] in G4. destruct s; try reflexivity;
+          rewrite (nonempty_slash _ Hs) in G4; discriminate.
     - (* QUrl *)
-      cbn [g_F4_query] in G4. apply negb_false_iff, String.eqb_eq in G4.
-      unfold url_string, http_mech, envoy_mech. cbn [rv_scheme rv_host rv_path rv_rawpath rv_query].
-      pose proof (escape_fixpoint_unescape _ G4) as U.
-      unfold GoUrl.unescape_or_empty. rewrite U.
-      rewrite (escaped_path_plain (l_rawpath L) (match s with SOn => "" | _ => l_rawpath L end) G4)
-        by (destruct s; auto).
-      rewrite (escaped_path_plain (l_rawpath L) "" G4) by auto. reflexivity.
+      destruct fixed4.
+      + destruct fixed1; [reflexivity|]. cbn [negb andb g_F1_query] in G1.
+        unfold url_string, http_mech, envoy_mech. cbn [rv_scheme rv_host rv_path rv_rawpath rv_query andb]. rewrite G1. reflexivity.
+      + cbn [negb andb g_F4_query] in G4. apply negb_false_iff, String.eqb_eq in G4.
+        unfold url_string, http_mech, envoy_mech. cbn [rv_scheme rv_host rv_path rv_rawpath rv_query].
+        pose proof (escape_fixpoint_unescape _ G4) as U.
+        unfold GoUrl.unescape_or_empty. rewrite U.
+        rewrite (escaped_path_plain (l_rawpath L) (if is_on s then "" else l_rawpath L) G4)
+          by (destruct (is_on s); auto).
+        rewrite (escaped_path_plain (l_rawpath L) "" G4) by auto. reflexivity.
     - (* QCapture *)
-      destruct fixed; [reflexivity|]. cbn [negb andb g_F1_query] in G1.
+      destruct fixed1; [reflexivity|]. cbn [negb andb g_F1_query] in G1.
       rewrite (assoc_opt_unesc_none s n caps G1). reflexivity.
     - (* QCaptures *)
-      destruct fixed; [reflexivity|]. cbn [negb andb g_F1_query] in G1.
+      destruct fixed1; [reflexivity|]. cbn [negb andb g_F1_query] in G1.
       apply negb_false_iff in G1. destruct caps; [reflexivity | discriminate].
     - (* QHeader *)
       f_equal. cbn [g_F6_query] in G6. cbn [g_F2_query] in G2.
@@ -895,51 +912,53 @@ Section Main.
 
   (** the guards of one logical request: those of every read the HTTP run makes, of the
       encoded-slash check and of the hand-over *)
-  Definition guards_fire (fixed_F1 : bool) (L : lreq) : bool :=
+  Definition guards_fire (fixed_F1 fixed_F4 : bool) (L : lreq) : bool :=
     match find (lookup_of (build_http L)) with
     | None => false
     | Some (rl, caps) =>
-      g_F4_decision (r_slashes rl) L ||
+      (negb fixed_F4 && g_F4_decision (r_slashes rl) L) ||
       let ans := answer (acc_http decode L) (http_mech L (r_slashes rl) caps) in
-      existsb (guard_query decode fixed_F1 (r_slashes rl) caps L) (trace ans (r_prog rl)) ||
+      existsb (guard_query decode fixed_F1 fixed_F4 (r_slashes rl) caps L) (trace ans (r_prog rl)) ||
       g_F3_adds (snd (run_prog ans (r_prog rl))) || g_F5_adds (snd (run_prog ans (r_prog rl)))
     end.
 
   (** C13, the decision and what the pipeline emits: the executor ends alike at the HTTP entry points and at Envoy *)
-  Theorem same_execution fixed L :
-    wf_lreqb L = true -> guards_fire fixed L = false ->
-    exec_http decode find L = exec_envoy decode find fixed L.
+  Theorem same_execution fixed1 fixed4 L :
+    wf_lreqb L = true -> guards_fire fixed1 fixed4 L = false ->
+    exec_http decode find L = exec_envoy decode find fixed1 fixed4 L.
   Proof.
     intros W G. unfold guards_fire in G. unfold exec_http, exec_envoy, execute.
-    pose proof (same_lookup L W) as SL.
+    pose proof (same_lookup fixed4 L W) as SL.
     destruct (find (lookup_of (build_http L))) as [[rl caps]|] eqn:F.
     - rewrite (mech_view_http find L rl caps W F).
-      rewrite SL in F. rewrite (mech_view_envoy find fixed L rl caps F).
+      rewrite SL in F. rewrite (mech_view_envoy find fixed1 fixed4 L rl caps F).
       apply orb_false_iff in G as [G4 G]. cbv zeta in G.
       apply orb_false_iff in G as [G G5]. apply orb_false_iff in G as [Gq G3].
-      rewrite G4.
-      destruct (run_agree (answer (acc_http decode L) (http_mech L (r_slashes rl) caps))
-                          (answer (acc_envoy decode (mk_envoy L)) (envoy_mech fixed L (r_slashes rl) caps))
-                          (r_prog rl)) as [R _].
-      + intros q Hq. apply answer_agree; [exact W|]. exact (existsb_false_forall _ _ Gq q Hq).
-      + rewrite R. reflexivity.
+      destruct (g_F4_decision (r_slashes rl) L) eqn:D4.
+      + destruct fixed4; [reflexivity | discriminate].
+      + rewrite andb_false_r.
+        destruct (run_agree (answer (acc_http decode L) (http_mech L (r_slashes rl) caps))
+                            (answer (acc_envoy decode (mk_envoy L)) (envoy_mech fixed1 fixed4 L (r_slashes rl) caps))
+                            (r_prog rl)) as [R _].
+        * intros q Hq. apply answer_agree; [exact W|]. exact (existsb_false_forall _ _ Gq q Hq).
+        * rewrite R. reflexivity.
     - unfold mech_view. rewrite F. rewrite SL in F. rewrite F. reflexivity.
   Qed.
 
   (** C13: same decision, same matched rule, same hand-over at all three entry points *)
-  Theorem three_entry_points_agree fixed L :
-    wf_lreqb L = true -> guards_fire fixed L = false ->
+  Theorem three_entry_points_agree fixed1 fixed4 L :
+    wf_lreqb L = true -> guards_fire fixed1 fixed4 L = false ->
     serve_decision decode find L = serve_proxy decode find L /\
-    serve_decision decode find L = serve_envoy decode find fixed L.
+    serve_decision decode find L = serve_envoy decode find fixed1 fixed4 L.
   Proof.
     intros W G. unfold serve_decision, serve_proxy, serve_envoy.
-    rewrite <- (same_execution fixed L W G).
+    rewrite <- (same_execution fixed1 fixed4 L W G).
     unfold guards_fire in G. unfold exec_http, execute in *.
     destruct (find (lookup_of (build_http L))) as [[rl caps]|] eqn:F.
     - rewrite (mech_view_http find L rl caps W F) in *.
       apply orb_false_iff in G as [G4 G]. cbv zeta in G.
       apply orb_false_iff in G as [G G5]. apply orb_false_iff in G as [Gq G3].
-      rewrite G4.
+      destruct (g_F4_decision (r_slashes rl) L) eqn:D4; [split; reflexivity|].
       destruct (run_prog (answer (acc_http decode L) (http_mech L (r_slashes rl) caps)) (r_prog rl)) as [r adds] eqn:R.
       cbn [snd] in G3, G5. destruct (same_upstream adds G3 G5) as [U1 U2].
       unfold serve_with. cbn [o_err o_rule o_adds]. rewrite <- U1, <- U2. split; reflexivity.
@@ -956,18 +975,30 @@ Section Main.
 
   (** C13, the view: whatever the pipeline of the matched rule may ask, outside the guards the answer
       is the same (this covers reads that the run at hand does not make) *)
-  Theorem same_view fixed L rl caps q :
+  Theorem same_view fixed1 fixed4 L rl caps q :
     wf_lreqb L = true -> find (lookup_of (build_http L)) = Some (rl, caps) ->
     g_F4_decision (r_slashes rl) L = false ->
-    guard_query decode fixed (r_slashes rl) caps L q = false ->
+    guard_query decode fixed1 fixed4 (r_slashes rl) caps L q = false ->
     exists vh ve, mech_view find true (build_http L) = inr (rl, vh) /\
-                  mech_view find fixed (build_envoy (mk_envoy L)) = inr (rl, ve) /\
+                  mech_view find fixed1 (build_envoy fixed4 (mk_envoy L)) = inr (rl, ve) /\
                   answer (acc_http decode L) vh q = answer (acc_envoy decode (mk_envoy L)) ve q.
   Proof.
-    intros W F G4 Gq. exists (http_mech L (r_slashes rl) caps), (envoy_mech fixed L (r_slashes rl) caps).
+    intros W F G4 Gq. exists (http_mech L (r_slashes rl) caps), (envoy_mech fixed1 fixed4 L (r_slashes rl) caps).
     rewrite (mech_view_http find L rl caps W F), G4.
-    rewrite (same_lookup L W) in F. rewrite (mech_view_envoy find fixed L rl caps F).
+    rewrite (same_lookup fixed4 L W) in F. rewrite (mech_view_envoy find fixed1 fixed4 L rl caps F), G4, andb_false_r.
     repeat split. apply answer_agree; assumption.
+  Qed.
+
+  (** the encoded-slash check itself: with the repaired URL construction it rejects at all entry points alike *)
+  Theorem slash_check_agrees fixed1 L rl caps :
+    wf_lreqb L = true -> find (lookup_of (build_http L)) = Some (rl, caps) ->
+    g_F4_decision (r_slashes rl) L = true ->
+    mech_view find true (build_http L) = inl EArgument /\
+    mech_view find fixed1 (build_envoy true (mk_envoy L)) = inl EArgument.
+  Proof.
+    intros W F G4. rewrite (mech_view_http find L rl caps W F), G4.
+    rewrite (same_lookup true L W) in F. rewrite (mech_view_envoy find fixed1 true L rl caps F), G4.
+    split; reflexivity.
   Qed.
 End Main.
 
@@ -1000,10 +1031,10 @@ Definition w1_find := w_find "/c0/abc" w1_rule [("name", "abc")].
 
 Lemma F1_refuted :
   wf_lreqb w1_req = true /\
-  guards_fire w_decode w1_find false w1_req = true /\
-  guards_fire w_decode w1_find true w1_req = false /\
-  serve_decision w_decode w1_find w1_req <> serve_envoy w_decode w1_find false w1_req /\
-  serve_decision w_decode w1_find w1_req = serve_envoy w_decode w1_find true w1_req.
+  guards_fire w_decode w1_find false false w1_req = true /\
+  guards_fire w_decode w1_find true false w1_req = false /\
+  serve_decision w_decode w1_find w1_req <> serve_envoy w_decode w1_find false false w1_req /\
+  serve_decision w_decode w1_find w1_req = serve_envoy w_decode w1_find true false w1_req.
 Proof. repeat split; try (vm_compute; reflexivity). vm_compute. intro E. inversion E. Qed.
 
 (** ... and a CEL condition on the capture fails with an internal error under Envoy *)
@@ -1011,19 +1042,19 @@ Definition w1b_rule := w_rule "c1" SOff (Some {| cd_q := QCapture "name"; cd_c :
 Definition w1b_find := w_find "/c1/admin" w1b_rule [("name", "admin")].
 Lemma F1_refuted_decision :
   s_err (serve_decision w_decode w1b_find (w_req "GET" "/c1/admin" [] "")) = None /\
-  s_err (serve_envoy w_decode w1b_find false (w_req "GET" "/c1/admin" [] "")) = Some EInternal.
+  s_err (serve_envoy w_decode w1b_find false false (w_req "GET" "/c1/admin" [] "")) = Some EInternal.
 Proof. split; vm_compute; reflexivity. Qed.
 
 (** C13-F2 *)
 Definition w2_rule := w_rule "c2" SOff (Some {| cd_q := QHeader "x-role"; cd_c := "admin" |}) [].
 Definition w2_req := w_req "GET" "/c2/lit" [("X-Role", "admin")] "".
 Definition w2_find := w_find "/c2/lit" w2_rule [].
-Lemma F2_refuted : forall fixed,
-  wf_lreqb w2_req = true /\ guards_fire w_decode w2_find fixed w2_req = true /\
+Lemma F2_refuted : forall fixed1 fixed4,
+  wf_lreqb w2_req = true /\ guards_fire w_decode w2_find fixed1 fixed4 w2_req = true /\
   existsb (g_F2_query w2_req) [QHeader "x-role"] = true /\
   s_err (serve_decision w_decode w2_find w2_req) = None /\
-  s_err (serve_envoy w_decode w2_find fixed w2_req) = Some EAuthz.
-Proof. intros []; repeat split; vm_compute; reflexivity. Qed.
+  s_err (serve_envoy w_decode w2_find fixed1 fixed4 w2_req) = Some EAuthz.
+Proof. intros [] []; repeat split; vm_compute; reflexivity. Qed.
 
 (** C13-F3 *)
 Lemma F3_refuted :
@@ -1039,30 +1070,32 @@ Proof. repeat split; vm_compute; reflexivity. Qed.
 Definition w4_rule := w_rule "c4" SOff None [hdr_step "X-Path" (TEcho QPath)].
 Definition w4_req := w_req "GET" "/c4/a/b%2Fc" [] "".
 Definition w4_find := w_find "/c4/a/b%2Fc" w4_rule [].
-Lemma F4_refuted : forall fixed,
-  wf_lreqb w4_req = true /\ g_F4_decision SOff w4_req = true /\ guards_fire w_decode w4_find fixed w4_req = true /\
+Lemma F4_refuted : forall fixed1,
+  wf_lreqb w4_req = true /\ g_F4_decision SOff w4_req = true /\ guards_fire w_decode w4_find fixed1 false w4_req = true /\
   s_err (serve_decision w_decode w4_find w4_req) = Some EArgument /\
-  s_err (serve_envoy w_decode w4_find fixed w4_req) = None.
+  s_err (serve_envoy w_decode w4_find fixed1 false w4_req) = None /\
+  s_err (serve_envoy w_decode w4_find fixed1 true w4_req) = Some EArgument.
 Proof. intros []; repeat split; vm_compute; reflexivity. Qed.
 
 Definition w4b_req := w_req "GET" "/c4/a%20b" [] "".
 Definition w4b_find := w_find "/c4/a%20b" w4_rule [].
-Lemma F4_refuted_view : forall fixed,
+Lemma F4_refuted_view : forall fixed1,
   wf_lreqb w4b_req = true /\ g_F4_query SOff w4b_req QPath = true /\
   s_handover (serve_decision w_decode w4b_find w4b_req) = Some {| ho_headers := [("X-Path", "/c4/a b")]; ho_cookies := [] |} /\
-  s_handover (serve_envoy w_decode w4b_find fixed w4b_req) = Some {| ho_headers := [("X-Path", "/c4/a%20b")]; ho_cookies := [] |}.
+  s_handover (serve_envoy w_decode w4b_find fixed1 false w4b_req) = Some {| ho_headers := [("X-Path", "/c4/a%20b")]; ho_cookies := [] |} /\
+  s_handover (serve_envoy w_decode w4b_find fixed1 true w4b_req) = Some {| ho_headers := [("X-Path", "/c4/a b")]; ho_cookies := [] |}.
 Proof. intros []; repeat split; vm_compute; reflexivity. Qed.
 
 (** C13-F5: a quoted cookie value is read differently; a value with a space is handed over differently *)
 Definition w5_rule := w_rule "c6" SOff (Some {| cd_q := QCookie "sid"; cd_c := "123" |}) [].
 Definition w5_req := w_req "GET" "/c6/lit" [("Cookie", String "s" (String "i" (String "d" (String "=" (String dquote (String "1" (String "2" (String "3" (String dquote "")))))))))] "".
 Definition w5_find := w_find "/c6/lit" w5_rule [].
-Lemma F5_refuted : forall fixed,
+Lemma F5_refuted : forall fixed1 fixed4,
   wf_lreqb w5_req = true /\ g_F5_query w5_req (QCookie "sid") = true /\
-  guards_fire w_decode w5_find fixed w5_req = true /\
+  guards_fire w_decode w5_find fixed1 fixed4 w5_req = true /\
   s_err (serve_decision w_decode w5_find w5_req) = None /\
-  s_err (serve_envoy w_decode w5_find fixed w5_req) = Some EAuthz.
-Proof. intros []; repeat split; vm_compute; reflexivity. Qed.
+  s_err (serve_envoy w_decode w5_find fixed1 fixed4 w5_req) = Some EAuthz.
+Proof. intros [] []; repeat split; vm_compute; reflexivity. Qed.
 
 Lemma F5_refuted_handover :
   let adds := [AddCookie "pc1" "v 1"] in
@@ -1075,11 +1108,11 @@ Proof. repeat split; try (vm_compute; reflexivity). vm_compute. intro E. inversi
 Definition w6_rule := w_rule "c7" SOff (Some {| cd_q := QHeader "Host"; cd_c := "a.example.com" |}) [].
 Definition w6_req := w_req "GET" "/c7/lit" [] "".
 Definition w6_find := w_find "/c7/lit" w6_rule [].
-Lemma F6_refuted : forall fixed,
-  wf_lreqb w6_req = true /\ g_F6_query (QHeader "Host") = true /\ guards_fire w_decode w6_find fixed w6_req = true /\
+Lemma F6_refuted : forall fixed1 fixed4,
+  wf_lreqb w6_req = true /\ g_F6_query (QHeader "Host") = true /\ guards_fire w_decode w6_find fixed1 fixed4 w6_req = true /\
   s_err (serve_decision w_decode w6_find w6_req) = None /\
-  s_err (serve_envoy w_decode w6_find fixed w6_req) = Some EAuthz.
-Proof. intros []; repeat split; vm_compute; reflexivity. Qed.
+  s_err (serve_envoy w_decode w6_find fixed1 fixed4 w6_req) = Some EAuthz.
+Proof. intros [] []; repeat split; vm_compute; reflexivity. Qed.
 
 (** C13-F7: a pipeline that hands the decoded body on *)
 Definition w7_rule : rule :=
@@ -1087,10 +1120,10 @@ Definition w7_rule : rule :=
      r_prog := Ask QBody (fun v => match v with VJson s => Emit (AddHeader "X-Body" s) Allow | _ => Fail EInternal end) |}.
 Definition w7_req := w_req "POST" "/c8/lit" [("Content-Type", "application/x-www-form-urlencoded")] "".
 Definition w7_find := w_find "/c8/lit" w7_rule [].
-Lemma F7_refuted : forall fixed,
-  wf_lreqb w7_req = true /\ g_F7_query w_decode w7_req QBody = true /\ guards_fire w_decode w7_find fixed w7_req = true /\
-  serve_decision w_decode w7_find w7_req <> serve_envoy w_decode w7_find fixed w7_req.
-Proof. intros []; repeat split; try (vm_compute; reflexivity); vm_compute; intro E; inversion E. Qed.
+Lemma F7_refuted : forall fixed1 fixed4,
+  wf_lreqb w7_req = true /\ g_F7_query w_decode w7_req QBody = true /\ guards_fire w_decode w7_find fixed1 fixed4 w7_req = true /\
+  serve_decision w_decode w7_find w7_req <> serve_envoy w_decode w7_find fixed1 fixed4 w7_req.
+Proof. intros [] []; repeat split; try (vm_compute; reflexivity); vm_compute; intro E; inversion E. Qed.
 
 (** non-vacuity: a request with headers in odd casing, a cookie, a JSON body and an escaped-free path
     through a rule whose pipeline reads a capture, a header, a cookie, the body and URL parts in a CEL
@@ -1110,8 +1143,8 @@ Definition nv_req : lreq :=
 Definition nv_find := w_find "/files/report.pdf" nv_rule [("name", "report.pdf")].
 
 Example nonvacuous :
-  wf_lreqb nv_req = true /\ guards_fire w_decode nv_find true nv_req = false /\
-  serve_envoy w_decode nv_find true nv_req =
+  wf_lreqb nv_req = true /\ guards_fire w_decode nv_find true true nv_req = false /\ guards_fire w_decode nv_find true false nv_req = false /\
+  serve_envoy w_decode nv_find true true nv_req =
     {| s_err := None; s_rule := "files";
        s_handover := Some {| ho_headers := [("X-User", "report.pdf"); ("X-Path", "/files/report.pdf");
                                             ("X-Url", "https://a.example.com:8443/files/report.pdf?v=2")];
@@ -1123,7 +1156,7 @@ Definition nv2_rule : rule :=
   w_rule "files" SNoDecode (Some {| cd_q := QMethod; cd_c := "POST" |}) [hdr_step "X-Q" (TEcho QQuery); ck_step "c" (TEcho (QHeader "Content-Type"))].
 Definition nv2_find := w_find "/files/report.pdf" nv2_rule [("name", "report.pdf")].
 Example nonvacuous_pinned :
-  guards_fire w_decode nv2_find false nv_req = false /\
-  s_handover (serve_envoy w_decode nv2_find false nv_req) =
+  guards_fire w_decode nv2_find false false nv_req = false /\
+  s_handover (serve_envoy w_decode nv2_find false false nv_req) =
     Some {| ho_headers := [("X-Q", "v=2")]; ho_cookies := [("c", "application/json")] |}.
 Proof. split; vm_compute; reflexivity. Qed.
